@@ -145,6 +145,9 @@ func opExpr(s Step) (e *Expr, needA, needB string, derives bool) {
 		return MCall(a, "replace", Lam([]string{"m"}, b)), "map", "map", true
 	case "mapPlus":
 		return Bin("+", a, b), "map", "map", true
+	case "mapPlusFresh":
+		// merge with a one-entry literal whose key is (almost always) new
+		return Bin("+", a, Map([]string{fmt.Sprintf("q%d_%d", s.N, s.V+3)}, []*Expr{v})), "map", "", true
 	case "mapEval":
 		return MCall(a, "eval"), "map", "", true
 	case "mapList":
@@ -158,7 +161,7 @@ func opExpr(s Step) (e *Expr, needA, needB string, derives bool) {
 var listOps = []string{"append", "append", "append", "appendList", "set", "reverse", "order", "plus", "top", "skip", "map", "accept", "eval", "combineN",
 	"combineNeval", "iirAppend", "number", "first", "size", "sum", "put", "replace", "mapPlus", "mapEval", "mapList", "mapMap",
 	"containsAll", "containsAll", "containsItem", "equalTo", "string", "last", "minMax", "max", "mean", "reduce", "mapReduce", "indexWhere", "present", "visit",
-	"orderRev", "orderLess", "combine", "combine3", "compact", "cross", "merge", "iir", "uniqueInt", "groupByInt", "replaceList", "mapCombine", "mapAccept", "mapGet"}
+	"orderRev", "orderLess", "combine", "combine3", "compact", "cross", "merge", "iir", "uniqueInt", "groupByInt", "replaceList", "mapCombine", "mapAccept", "mapGet", "mapPlusFresh", "mapPlusFresh", "mapPlusFresh"}
 
 func kindOf(v ref.Value) string {
 	switch x := v.(type) {
